@@ -51,11 +51,13 @@ Want(e, k) ==
     CASE e.kind = "multiply" -> ConvAtBI(e.a, e.b, k)
       [] e.kind = "multiply_into" -> BIAdd(BIFromInt(e.dst[k + 1]), IF k <= Len(e.a) + Len(e.b) - 2 THEN ConvAtBI(e.a, e.b, k) ELSE BIZero)
       [] e.kind = "pointwise" -> ConvAtBI(e.a, e.b, k)
+      [] e.kind = "inv_into" -> BIAdd(BIFromInt(e.dst[k + 1]), IF k < e.n THEN ConvAtBI(e.a, e.b, k) ELSE BIZero)
 
 LenOK(e) ==
     CASE e.kind = "multiply" -> e.len = (IF e.a = <<>> \/ e.b = <<>> THEN 0 ELSE Len(e.a) + Len(e.b) - 1)
       [] e.kind = "multiply_into" -> e.len = Len(e.dst)
       [] e.kind = "pointwise" -> e.len = e.n
+      [] e.kind = "inv_into" -> e.len = Len(e.dst)
 
 Step(e) ==
     IF "panic" \in DOMAIN e THEN Mismatch(l, [ev |-> "call", op |-> e.kind, float |-> e.float, la |-> Len(e.a), lb |-> Len(e.b), panic |-> e.panic], "must not panic")
